@@ -152,4 +152,10 @@ example : extendEnd (2 ^ 63 - 50) 30 60 (2 ^ 63 - 70) = 2 ^ 63 - 20 ∧ extendEn
 example : updateBoard [⟨1, 9⟩, ⟨2, 5⟩, ⟨3, 5⟩, ⟨4, 5⟩, ⟨5, 5⟩] 6 5 = [⟨1, 9⟩, ⟨2, 5⟩, ⟨3, 5⟩, ⟨4, 5⟩, ⟨5, 5⟩] := by decide
 example : updateBoard [⟨1, 9⟩, ⟨2, 5⟩, ⟨3, 5⟩, ⟨4, 5⟩, ⟨5, 5⟩] 6 6 = [⟨1, 9⟩, ⟨6, 6⟩, ⟨2, 5⟩, ⟨3, 5⟩, ⟨4, 5⟩] := by decide
 
+-- added by the hygiene audit
+-- `outside_window_noop`: a successful trade callback after the end of the competition (hypotheses `isOngoing = false` and `= some`)
+example : isOngoing demo.comp 5000 = false ∧ (onExecuted demo 1 5000 3 0 2 true (some (1, 0, 5))).isSome = true := by decide
+-- `extension_never_past` / `end_time_step`: the lower-bound hypothesis on the stored end time
+example : I64MIN ≤ demo.comp.end_ := by decide
+
 end Gmx.C39
